@@ -179,6 +179,15 @@ def shapes_for(sig, baseline, optvals):
         if p["kind"] in ("p", "k") and p["name"] in values and p["name"] not in baseline:
             shapes.append((f"optional-named-{p['name']}", [], base_named + [(p["name"], values[p["name"]])], base_ctx))
     shapes.append(("undeclared-name", [], base_named + [("zz_undeclared", 1)], base_ctx))
+    # a documented name in another letter case is another (undeclared) name
+    for k, v in base_named:
+        if k.upper() != k:
+            shapes.append((f"case-variant-{k}", [], [(a, b) if a != k else (k.upper(), b) for a, b in base_named], base_ctx))
+            break
+    for p in sig["params"]:
+        if p["kind"] in ("p", "k") and p["name"] in values and p["name"] not in baseline and p["name"].upper() != p["name"]:
+            shapes.append((f"case-variant-{p['name']}", [], base_named + [(p["name"].capitalize(), values[p["name"]])], base_ctx))
+            break
     for k, _ in base_named:
         shapes.append((f"omit-{k}", [], [(a, b) for a, b in base_named if a != k], base_ctx))
     if all(p["name"] in values for p in pos_params):
@@ -258,6 +267,8 @@ def oracle_shapes(case, obs):
             return f"{s['text']!r} crashes the compile phase with {out[1]}: {out[2]} (not a template error)"
         label = s["label"]
         ok = out[0] == "ok"
+        if label.startswith("case-variant-") and ok:
+            return f"an argument name differing from the documented one only in letter case was accepted: {s['text']!r}"
         if label == "undeclared-name" and ok:
             return f"undeclared argument name accepted: {s['text']!r}"
         if label.startswith("omit-") and ok:
